@@ -33,6 +33,21 @@ Definition rstep_fn (s : rstate) (e : rstep) : rstate :=
 
 Definition rrun (es : list rstep) : rstate := fold_left rstep_fn es rinit.
 
+(* a feedback edge from the value to the dependency (an effect behind a selector: when the installed value ends in 7 the
+   dependency is moved on to value + 1): just another write, issued right after the completion that installed the value *)
+Definition feeds (d : Z) : bool := Z.eqb (Z.modulo d 10) 7.
+Definition rstep_fb (s : rstate) (e : rstep) : rstate :=
+  let s' := rstep_fn s e in
+  match e with
+  | RComplete k =>
+      match nth_error (r_fetches s) k with
+      | Some (d, true) => if feeds d && negb (match r_value s with Some v => Z.eqb v d | None => false end)
+                          then rstep_fn s' (RWrite (d + 1)) else s'
+      | _ => s'
+      end
+  | RWrite _ => s'
+  end.
+
 Open Scope string_scope.
 Definition show_rstate (s : rstate) : string :=
   String.concat "" ["value="; match r_value s with Some v => show_Z v | None => "none" end;
@@ -43,5 +58,13 @@ Fixpoint rtrace (s : rstate) (es : list rstep) : list string :=
   | e :: r => let s' := rstep_fn s e in show_rstate s' :: rtrace s' r
   end.
 Definition run_resource (es : list rstep) : string := lines (show_rstate rinit :: rtrace rinit es).
+Fixpoint rtrace_fb (s : rstate) (es : list rstep) : list string :=
+  match es with
+  | [] => []
+  | e :: r => let s' := rstep_fb s e in show_rstate s' :: rtrace_fb s' r
+  end.
+Definition run_resource_fb (es : list rstep) : string := lines (show_rstate rinit :: rtrace_fb rinit es).
+Definition run_resources_fb (l : list (list rstep)) : string :=
+  join (String.concat "" [nl; "=="; nl]) (map run_resource_fb l).
 Definition run_resources (l : list (list rstep)) : string :=
   join (String.concat "" [nl; "=="; nl]) (map run_resource l).
